@@ -61,7 +61,7 @@ LEVEL = "model_checking"
 
 POOL_SRC = '''\
 from guppylang import guppy, qubit, array, comptime, enable_experimental_features
-from guppylang.std.builtins import owned, nat
+from guppylang.std.builtins import owned, nat, result
 from guppylang.std.quantum import h, measure, discard
 
 enable_experimental_features()
@@ -209,8 +209,10 @@ def calls_bad_sig(x: int) -> int:
 
 
 @guppy.comptime
-def ct_interrupt(q: qubit) -> None:
+def ct_interrupt() -> int:
+    q = qubit()
     h(q)
+    result("x", measure(q))
     raise KeyboardInterrupt()
 
 
@@ -220,6 +222,7 @@ def qfun(x: int) -> bool:
     h(q)
     if x > 0:
         h(q)
+    result("x", x)
     return measure(q)
 '''
 
